@@ -442,7 +442,7 @@ def obligations(tier):
     q = tier == 'quick'
     T = 170 if q else 1500
     for op in range(len(LIST_OPS)):
-        obs.append(Ob('iset_list', timeout=T, pins={'cfg': 0, 'op': op, 'nmin': 0, 'nmax': 5 if q else 8, 'remmax': 3 if q else 4},
+        obs.append(Ob('iset_list', timeout=T if q else 2700, pins={'cfg': 0, 'op': op, 'nmin': 0, 'nmax': 5 if q else 8, 'remmax': 3 if q else 4},
                       need_kinds=('tombstones',)))
     # deep tombstone layouts (several dead intervals incl. adjacent and trailing ones): 8 items, 4 removals
     for r0 in range(8):
